@@ -78,6 +78,21 @@ def dup_macro(rnd):
     return {"name": "dupmacro", "prog": prog, "lines": lines, "source": src, "sets": {"A": [2], "B": [7], "None": []}}
 
 
+def recur_program(rnd):
+    """`next` on `go: jsr f`: the address behind it (out: rts) is reached inside the recursive call first."""
+    p = [I("ldx", rnd.choice([2, 3])), I("jsr", "f"), I("nop"), I("brk"), I("dex", 0, "f"), I("bne", "go"), I("jmp", "out"), I("jsr", "f", "go"), I("rts", 0, "out")]
+    pg = plain("recur", p, "nop", "jsr")
+    pg["sets"]["B"] = [pg["lines"][7]]
+    return pg
+
+
+def adjacent_program(rnd):
+    """`next` on a jsr whose subroutine starts directly behind it."""
+    p = [I("ldx", 2), I("jsr", "f"), I("dex", 0, "f"), I("bne", "ret"), I("brk"), I("rts", 0, "ret")]
+    pg = plain("adjacent", p, "dex", "jsr")
+    return pg
+
+
 def probe_program(rnd):
     """Long enough (in instructions) that a perturbed machine is still inside the loop 60-120 ms after configurationDone
     (the machine thread first sleeps up to 50 ms in its Launching branch): breakpoints installed DURING the free run."""
@@ -218,14 +233,17 @@ def design_level(rep, tier, devs):
         raise V.ToolError("MC_Debugger_dup failed:\n%s" % V.tail(r.out, 40))
     rep.notes.append("MC_Debugger_dup (one source line = two instructions, breakpoints by line): %d distinct states; all properties hold" % r.distinct)
     # counterexamples that must exist: the recorded findings as violations of the ideal reading, and vacuity witnesses
-    r = V.tlc(mc, cfg=os.path.join(SPEC, "MC_Debugger_push_ideal.cfg"), workers=3, timeout=600, tag="C19-mc-push-ideal")
-    rep.add_tlc(r)
-    if r.invariant_violated or r.rc != 0:
-        raise V.ToolError("MC_Debugger_push_ideal (stepOut counting nested calls) failed:\n" + V.tail(r.out, 30))
+    for name in ("push_ideal", "next_ideal", "next_ideal2"):
+        r = V.tlc(mc, cfg=os.path.join(SPEC, "MC_Debugger_%s.cfg" % name), workers=3, timeout=600, tag="C19-mc-" + name)
+        rep.add_tlc(r)
+        if r.invariant_violated or r.rc != 0:
+            raise V.ToolError("MC_Debugger_%s (steps that count call depth) failed:\n%s" % (name, V.tail(r.out, 30)))
     # binding demonstration: every deviation, switched on, is refuted by TLC on the ideal properties
     for name, what in (("race", "PauseRace: StoppedIsHalted fails on the implementation-shaped reading"),
                        ("race_insp", "PauseRace seen by the client: stackTrace/variables disagree"),
                        ("push", "StepOutReadsTopOfStack: StepExact fails when the subroutine pushed data"),
+                       ("cex_next_recur", "NextIgnoresCallDepth: next over a recursive call stops inside the nested call"),
+                       ("cex_next_adjacent", "NextIgnoresCallDepth: next over a call to the subroutine right behind it stops at its first instruction"),
                        ("self", "one-instruction loop: breakpoint not re-checked (NoSkippedBreakpoint fails)"),
                        ("cex_dup", "hypothetical FirstPcOnly: a breakpoint on a line assembled twice covers only the first copy (NoSkippedBreakpoint fails)"),
                        ("cex_stale", "hypothetical StaleBpCopy: breakpoints installed during a free run are not seen (NoSkipAfterProbe fails)"),
@@ -255,6 +273,8 @@ def main(tier):
     nprobe = 36 if tier == "quick" else 150
     picks = scripts if len(scripts) <= nsess else None
     through = [c for c in scripts if c["family"] == "runthrough"]
+    nextover = [c for c in scripts if c["family"] == "nextover"]
+    evalmem = [c for c in scripts if c["family"] == "evalmem"]
     scripts = [c for c in scripts if c["family"] == "general"]
     probe_scripts = [c for c in scripts if "probe" in c["script"]]
     pause_scripts = [c for c in scripts if "pause" in c["script"] and "probe" not in c["script"]]
@@ -276,17 +296,27 @@ def main(tier):
         for mk in (dup_loop, dup_macro):
             i += 1
             add(i, case, mk(rnd), "slow", True)
+    for case in sorted(nextover, key=lambda c: len(c["script"])):
+        for mk in (recur_program, adjacent_program):
+            i += 1
+            add(i, case, mk(rnd), "slow", True)
+    for case in evalmem:
+        # in a process of its own: on a tree where the read past $ffff panics the debug thread is gone afterwards
+        i += 1
+        add(i, case, programs(rnd)[0], "evalmem", True)
     # workers: one unperturbed process (full-speed machine, long programs), the others with seeded sleeps at the hook's gate points
     sd = V.seed()
-    perturbs = [None, "%d:400:500" % (sd * 7 + 1), "%d:1500:1000" % (sd * 7 + 2), "%d:3000:600" % (sd * 7 + 3), "%d:800:1000" % (sd * 7 + 4)]
+    perturbs = [None, None, "%d:400:500" % (sd * 7 + 1), "%d:1500:1000" % (sd * 7 + 2), "%d:3000:600" % (sd * 7 + 3), "%d:800:1000" % (sd * 7 + 4)]
     buckets = [[] for _ in perturbs]
     for j in jobs:
         if j["kind"] == "fast":
             buckets[0].append(j)
+        elif j["kind"] == "evalmem":
+            buckets[1].append(j)
         elif j["kind"] == "probe":
-            buckets[2 + j["id"] % 3].append(j)        # the three slowest machines (>= 0.8 ms per instruction on average)
+            buckets[3 + j["id"] % 3].append(j)        # the three slowest machines (>= 0.8 ms per instruction on average)
         else:
-            buckets[1 + j["id"] % (len(perturbs) - 1)].append(j)
+            buckets[2 + j["id"] % (len(perturbs) - 2)].append(j)
     results, errors, ths = {}, [], []
     t0 = time.time()
     for w, (pb, js) in enumerate(zip(perturbs, buckets)):
